@@ -205,7 +205,7 @@ def run_tlc(module, cfg, wd, workers=None, simulate=None, depth=None, timeout=90
     out_path = os.path.join(wd, f"{module}.{os.path.basename(cfg)}.out")
     meta = os.path.join(wd, "meta-" + os.path.basename(cfg))
     shutil.rmtree(meta, ignore_errors=True)
-    jopts = [f"-Xmx{heap}", "-XX:+UseParallelGC"]
+    jopts = [f"-Xmx{heap}", "-XX:+UseParallelGC", "-Xss512m", "-XX:ThreadStackSize=524288"]
     if dfs_queue:
         jopts.append("-Dtlc2.tool.queue.IStateQueue=StateDeque")
     cmd = ["java"] + jopts + ["-cp", TLC_CP, "tlc2.TLC", "-metadir", meta, "-config", cfg,
